@@ -16,6 +16,170 @@ import build_repo
 VERIF = build_repo.VERIF
 OUT = os.path.join(VERIF, "lean", "Jose", "Tables.lean")
 OUT_SUG = os.path.join(VERIF, "lean", "Jose", "SugTable.lean")
+OUT_GRID = os.path.join(VERIF, "lean", "Jose", "GridTable.lean")
+
+
+def lean_str(s):
+    """a Lean string literal (control characters as \\xHH, everything else raw UTF-8)"""
+    out = ['"']
+    for ch in s:
+        o = ord(ch)
+        if ch == '"':
+            out.append('\\"')
+        elif ch == "\\":
+            out.append("\\\\")
+        elif o < 0x20 or o == 0x7f:
+            out.append("\\x%02x" % o)
+        else:
+            out.append(ch)
+    out.append('"')
+    return "".join(out)
+
+
+def ljs(v):
+    """a JSON value as a Lean `Json` term (strings through lean_str; no reals)"""
+    if v is None:
+        return "N"
+    if v is True or v is False:
+        return "(B %s)" % ("true" if v else "false")
+    if isinstance(v, int):
+        return "(I %d)" % v if v >= 0 else "(I (%d))" % v
+    if isinstance(v, str):
+        return "(S %s)" % lean_str(v)
+    if isinstance(v, list):
+        return "(A [" + ", ".join(ljs(x) for x in v) + "])"
+    if isinstance(v, dict):
+        return "(O [" + ", ".join("(%s, %s)" % (lean_str(k), ljs(x)) for k, x in v.items()) + "])"
+    raise SystemExit("translator-failed: cannot render %r" % (v,))
+
+
+def grid_ops():
+    """fixed grids of pure operations, per property: {pid: [(op, args)]}"""
+    import itertools
+    g = {}
+    # C05: the grant decision
+    allops = ["sign", "verify", "encrypt", "decrypt", "wrapKey", "unwrapKey", "deriveKey", "deriveBits"]
+    kos = [None, [], [5], ["sign", 5], "sign", allops, ["sign", "verify"], ["encrypt", "decrypt"], ["wrapKey", "unwrapKey", "deriveKey"]] + [[o] for o in allops]
+    rows = []
+    for use in ("ABSENT", "sig", "enc", "other", 5):
+        for ko in kos:
+            jwk = {"kty": "oct"}
+            if use != "ABSENT":
+                jwk["use"] = use
+            if ko is not None:
+                jwk["key_ops"] = ko
+            for op in allops + ["junk"]:
+                for req in (False, True):
+                    rows.append(("jwk.prm", {"jwk": jwk, "op": op, "req": req}))
+    rows += [("jwk.prm", {"jwk": j, "op": "sign", "req": r}) for j in (5, None, [], "k") for r in (False, True)]
+    rows += [("jwk.prm", {"jwk": {"use": "sig"}, "req": r}) for r in (False, True)]
+    g["C05"] = rows
+    # C06: public export
+    rows = []
+    base = {"oct": {"kty": "oct", "k": "AAAA"}, "EC": {"kty": "EC", "crv": "P-256", "x": "AA", "y": "AA", "d": "AA"},
+            "RSA": {"kty": "RSA", "n": "AA", "e": "AQAB", "d": "AA", "p": "AA", "q": "AA", "dp": "AA", "dq": "AA", "qi": "AA", "oth": [{"r": "AA"}]}}
+    prv = {"oct": ["k"], "EC": ["d"], "RSA": ["d", "p", "q", "dp", "dq", "qi", "oth"]}
+    kovs = [None, ["sign", "verify"], ["decrypt", "encrypt", "wrapKey", "unwrapKey", "deriveKey", "deriveBits"], ["sign", 5, "verify"], [], "sign"]
+    for kty, b in base.items():
+        subsets = [[]] + [[m] for m in prv[kty]] + [prv[kty]] + ([prv[kty][:3], prv[kty][3:]] if kty == "RSA" else [])
+        for drop in subsets:
+            for ko in kovs:
+                for name in (kty, kty.lower(), kty[0] + kty[1:].swapcase()):
+                    k = {m: v for m, v in b.items() if m not in drop}
+                    k["kty"] = name
+                    k["kid"] = "keep me"
+                    if ko is not None:
+                        k["key_ops"] = ko
+                    rows.append(("jwk.pub", {"jwk": k}))
+    for j in ({"kty": "OKP", "d": "AA"}, {"k": "AA"}, {"kty": 5}, 5, None, "s", [], {}, [base["oct"], base["EC"]], {"keys": [base["RSA"], base["oct"]]},
+              {"keys": [base["oct"], {"kty": "nope"}, base["EC"]]}, [base["EC"], 5], {"keys": 5}, {"keys": []}, [[base["oct"]]], {"keys": [{"keys": [base["oct"]]}]}):
+        rows.append(("jwk.pub", {"jwk": j}))
+    g["C06"] = rows
+    # C12: key equality
+    ks = [base["oct"], dict(base["oct"], k="AAAB"), dict(base["oct"], kid="x"), base["EC"], dict(base["EC"], x="AB"), {k: v for k, v in base["EC"].items() if k != "d"},
+          dict(base["EC"], kty="ec"), base["RSA"], dict(base["RSA"], e="AQAC"), {"kty": "oct"}, {"kty": "nope", "k": "AAAA"}, {"k": "AAAA"}, 5, None]
+    g["C12"] = [("jwk.eql", {"a": a, "b": b}) for a in ks for b in ks]
+    # C15: header merge (the generator of the check, which is deterministic)
+    sys.path.insert(0, os.path.join(VERIF, "tools"))
+    from props import c15, c16
+    def has_real(v):
+        return isinstance(v, float) or (isinstance(v, list) and any(has_real(x) for x in v)) or (isinstance(v, dict) and any(has_real(x) for x in v.values()))
+    g["C15"] = [(o, a) for o, a in c15.gen(None) if not has_real(a)]
+    # C16: add_entity histories of length <= 2
+    rows = []
+    for kind in ("jws", "jwe"):
+        pl, keys = c16.SETS[kind]
+        es = c16.entries(kind)[:4] + [5]
+        for st in c16.starts(kind):
+            for n in (1, 2):
+                for hist in itertools.product(es, repeat=n):
+                    rows.append(("misc.entity_hist", {"kind": kind, "start": st, "objs": list(hist), "plural": pl, "keys": keys}))
+    for o in ({"protected": {"alg": "x", "b": [1, {"c": "é"}]}}, {"protected": "abc"}, {"protected": 5}, {}, 5, {"protected": {}}, {"protected": {"z": 1, "a": "\u00e9\n\"q\\"}}):
+        rows.append(("misc.encode_protected", {"obj": o}))
+    g["C16"] = rows
+    # C08: buffer forms of the codec
+    rows = []
+    alpha = [0x41, 0x42, 0x51, 0x5f, 0x2d, 0x3d, 0x2b, 0x2f, 0x20, 0x00, 0xff, 0x7a]
+    texts = [[]] + [[a] for a in alpha] + [[a, b] for a in alpha for b in alpha]
+    texts += [[0x51, 0x55, c] for c in alpha] + [[0x51, 0x55, 0x4a, c] for c in alpha] + [[0x51, 0x55, 0x4a, 0x44, c] for c in alpha[:6]]
+    texts += [list(b"QUJDREVGRw"), list(b"QUJDREVGRx"), list(b"QUJDREVG"), list(b"QUJDREVGR0g"), list(b"QUJDREVGR0h")]
+    for t in texts:
+        need = len(t) // 4 * 3 + max(len(t) % 4 - 1, 0)
+        for ol in (None, need, need - 1 if need else 0, need + 1):
+            a = {"in": bytes(t).hex()}
+            if ol is not None:
+                a["ol"] = ol
+            rows.append(("b64.dec_buf", a))
+    bs = [[]] + [[a] for a in (0, 1, 0x41, 0xff)] + [[a, b] for a in (0, 0x41, 0xff) for b in (0, 0x41, 0xff)] + \
+         [[a, b, c] for a in (0, 0xff) for b in (0, 0x41) for c in (1, 0xff)] + [list(b"ABCDEFG"), list(range(250, 256)) + list(range(0, 5))]
+    for b in bs:
+        need = (len(b) + 2) // 3 * 4 - ((3 - len(b) % 3) % 3)
+        for ol in (None, need, need - 1 if need else 0, need + 1):
+            a = {"in": bytes(b).hex()}
+            if ol is not None:
+                a["ol"] = ol
+            rows.append(("b64.enc_buf", a))
+        rows.append(("b64.enc", {"in": bytes(b).hex()}))
+    for j in ("QUJD", "QUJ", "QU", "Q", "", "QUJD=", "Q UJD", 5, None, ["QUJD"], "QUJE", "QUI", "QUH", "____", "----", "\u00e9"):
+        rows.append(("b64.dec", {"j": j}))
+        rows.append(("b64.dec", {"j": j, "ol": 3}))
+        rows.append(("b64.dec", {"j": j, "ol": 2}))
+    g["C08"] = rows
+    return g
+
+
+def generate_grid(info):
+    """{path: text} — one generated module per property: Jose/Grid/<pid>.lean"""
+    g = grid_ops()
+    out = {}
+    for pid in sorted(g):
+        L = ["/- GENERATED by tools/extract_tables.py: answers of /repo's current working tree (library objects just built,",
+             "   driven in-process by the harness) to a fixed grid of pure operations for property %s.  Do not edit. -/" % pid,
+             "import Jose.Driver.Pure", "namespace Jose", "namespace Grid", "namespace %s" % pid, "open Jose.Json Jose.Driver", "",
+             "private abbrev N : Json := Json.null", "private abbrev B (b : Bool) : Json := Json.bool b", "private abbrev I (i : Int) : Json := Json.int i",
+             "private abbrev S (s : String) : Json := Json.str s", "private abbrev A (l : List Json) : Json := Json.arr l",
+             "private abbrev O (l : List (String × Json)) : Json := Json.obj l",
+             "private abbrev R (op : String) (args result : Json) : GridRow := { op := op, args := args, result := result }", ""]
+        lines = "\n".join("%s %s" % (o, json.dumps(a, ensure_ascii=True, separators=(",", ":"))) for o, a in g[pid]) + "\n"
+        r = subprocess.run([info["hx"]], input=lines, stdout=subprocess.PIPE, text=True, env=dict(os.environ, ASAN_OPTIONS="detect_leaks=0"))
+        res = r.stdout.splitlines()
+        if len(res) != len(g[pid]):
+            raise SystemExit("translator-failed: grid %s: %d answers for %d operations" % (pid, len(res), len(g[pid])))
+        rows = ["  R %s %s %s" % (lean_str(o), ljs(a), ljs(json.loads(x))) for (o, a), x in zip(g[pid], res)]
+        CH = 50
+        names = []
+        for c in range(0, len(rows), CH):
+            nm = "rows_%d" % (c // CH)
+            names.append(nm)
+            L.append("def %s : List GridRow := [" % nm)
+            L.append(",\n".join(rows[c:c + CH]))
+            L.append("]")
+        L.append("/-- the grid in chunks (%d rows) -/" % len(rows))
+        L.append("def chunks : List (List GridRow) := [%s]" % ", ".join(names))
+        L.append("def size : Nat := %d" % len(rows))
+        L += ["", "end %s" % pid, "end Grid", "end Jose"]
+        out[os.path.join(VERIF, "lean", "Jose", "Grid", pid + ".lean")] = "\n".join(L) + "\n"
+    return out
 
 
 def sug_keys():
@@ -238,7 +402,8 @@ def main():
     info = build_repo.build("asan")
     txt, t = generate(info)
     changed = False
-    for path, text in ((OUT, txt), (OUT_SUG, generate_sug(t))):
+    os.makedirs(os.path.join(VERIF, "lean", "Jose", "Grid"), exist_ok=True)
+    for path, text in [(OUT, txt), (OUT_SUG, generate_sug(t))] + sorted(generate_grid(info).items()):
         old = open(path).read() if os.path.exists(path) else None
         if old != text:
             with open(path + ".tmp", "w") as f:
